@@ -37,7 +37,13 @@ pub fn make_histories_sized(seed: u64, n: usize, maxdim: usize, maxextra: u64) -
         let flavour = if sorenson { Flavour::Sor(rng.below(2) as u8) } else { Flavour::StdPlus };
         let (w, h) = gen_size(&mut rng, maxdim);
         let (mut w, mut h) = if sorenson { (w, h) } else { (((w + 3) / 4 * 4).clamp(4, 2048), ((h + 3) / 4 * 4).clamp(4, 1152)) };
-        let len = 3 + rng.below(maxextra) as usize;
+        // one history in sixteen is long (hundreds of calls on small pictures)
+        let long_history = maxextra >= 8 && i % 16 == 5;
+        if long_history {
+            w = 16 + 4 * (i % 3);
+            h = 16;
+        }
+        let len = if long_history { 320 + rng.below(200) as usize } else { 3 + rng.below(maxextra) as usize };
         let mut calls = vec![];
         let mut have_ref = false;
         let mut tr = rng.byte();
